@@ -13,7 +13,7 @@ def build(spec, rng):
             v = v[:1] + v[1:]             # an equal but distinct object
         return v
     kids = list(spec[1:])
-    if t in ("set", "frozenset", "dict"):
+    if t in ("set", "frozenset", "dict", "odict"):
         rng.shuffle(kids)                 # insertion order is part of the construction history
     if t == "list":
         return [build(k, rng) for k in kids]
@@ -31,8 +31,9 @@ def build(spec, rng):
         return s
     if t == "frozenset":
         return frozenset(build(k, rng) for k in kids)
-    if t == "dict":
-        d = {}
+    if t in ("dict", "odict"):
+        import collections
+        d = {} if t == "dict" else collections.OrderedDict()
         if rng.random() < 0.4:
             for x in ("__tmp1__", "__tmp2__"):
                 d[x] = 0
